@@ -1778,4 +1778,56 @@ noncomputable example : ∃ r : ℝ, ∀ (sc0 seedSc : Scales ℝ),
 
 end audit
 
+/-! ### statement audit, second part: `set_literal` and the `_rpow` theorems over ℝ with the real power function -/
+section audit2
+
+-- `set_literal('1.5e3   km ')` and `set_literal('[[1, 2], [3.5, -4]]  km')`: every hypothesis discharged
+example : setLiteral (numAlg ratToInt?) (envSI (K := Rat) unitTable) ("1.5e3".toList ++ ' ' :: "  km ".toList)
+    = some (litVal 15 2 * 1000) :=
+  set_literal_scalar _ _ "1.5e3".toList "  km ".toList 15 2 1000 (by rfl) (by decide +kernel) (by decide +kernel)
+    (by decide) (by decide +kernel)
+example : setLiteralV (numAlg ratToInt?) (envSI (K := Rat) unitTable) ("[[1, 2], [3.5, -4]]".toList ++ ' ' :: " km".toList)
+    = some ([2, 2], (Lit.seq [.seq [.num 1 0, .num 2 0], .seq [.num 35 (-1), .num (-4) 0]]).flat.map
+        fun me => litVal me.1 me.2 * 1000) :=
+  set_literal_value_unit _ _ "[[1, 2], [3.5, -4]]".toList " km".toList _ [2, 2] 1000 (by rfl) (by decide +kernel)
+    (by decide +kernel) (by decide +kernel) (by decide) (by decide +kernel)
+example := set_literal_eq_set_in_units (numAlg ratToInt?) (envSI (K := Rat) unitTable) "[[1, 2], [3.5, -4]]".toList " km".toList
+    (Lit.seq [.seq [.num 1 0, .num 2 0], .seq [.num 35 (-1), .num (-4) 0]]) [2, 2] 1000 (by rfl) (by decide +kernel)
+    (by decide +kernel) (by decide +kernel) (by decide) (by decide +kernel)
+
+-- laws and parse hypotheses over the SAME field: ℝ, the real power function, the table names km and mm
+def kmE : UnitEntry := ⟨"km".toList, 1000, 1, ⟨1, 0, 0, 0, 0⟩⟩
+def mmE : UnitEntry := ⟨"mm".toList, 1152921504606847, 1152921504606846976, ⟨1, 0, 0, 0, 0⟩⟩
+theorem lookup_km : lookup unitTable "km".toList = some kmE := by rfl
+theorem lookup_mm : lookup unitTable "mm".toList = some mmE := by rfl
+noncomputable def scR : Scales ℝ := ⟨3, 1 / 7, 11, 5 / 2, 1⟩
+theorem scR_pos : scR.Pos := by refine ⟨?_, ?_, ?_, ?_, ?_⟩ <;> norm_num [scR]
+theorem track_km (toRat? : ℝ → Option Rat) (rp : ℝ → Rat → ℝ) :
+    parse (trackAlgR toRat? rp) (envTrackedQ (K := ℝ) unitTable) "km".toList = some (kmE.si, kmE.dim.toQ) := by
+  rw [parse_name _ _ _ (validName_of_b (by decide))]
+  simp only [envTrackedQ, lookup_km, Option.map_some]
+theorem track_mm (toRat? : ℝ → Option Rat) (rp : ℝ → Rat → ℝ) :
+    parse (trackAlgR toRat? rp) (envTrackedQ (K := ℝ) unitTable) "mm".toList = some (mmE.si, kmE.dim.toQ) := by
+  rw [parse_name _ _ _ (validName_of_b (by decide))]
+  simp only [envTrackedQ, lookup_mm, Option.map_some]; rfl
+theorem mm_ne_zero : (mmE.si : ℝ) ≠ 0 := by norm_num [mmE, UnitEntry.si]
+
+noncomputable example := eval_dimension_hom_rpow (F := ℝ) (fun _ => none) realRpowLaws unitTable scR scR_pos "km".toList _ _
+  (track_km _ _)
+noncomputable example := eval_dimension_hom_ast_rpow (F := ℝ) (fun _ => none) realRpowLaws unitTable scR scR_pos
+  (.name "km".toList) kmE.si kmE.dim.toQ (by simp only [evalAst, envTrackedQ, lookup_km, Option.map_some])
+noncomputable example := same_dim_ratio_invariant_rpow (F := ℝ) (fun _ => none) realRpowLaws unitTable "km".toList "mm".toList
+  kmE.si mmE.si kmE.dim.toQ (track_km _ _) (track_mm _ _) mm_ne_zero scR scR_pos [2, -3]
+noncomputable example := session_conversion_invariant_rpow (F := ℝ) (fun _ => none) realRpowLaws unitTable "km".toList "mm".toList
+  kmE.si mmE.si kmE.dim.toQ (track_km _ _) (track_mm _ _) mm_ne_zero (by decide) (by decide) scR
+  [Call.parse (some "C".toList)] (by simpa [finalScales, Call.next] using scR_pos) [2, -3]
+example : ((4 : ℝ)) ^ (((1 / 2 : Rat)) : ℝ) = 2 :=
+  rpow_unique realRpowLaws (x := (4 : ℝ)) (y := 2) (by norm_num) (by norm_num) (1 / 2)
+    (by rw [show (1 / 2 : ℚ).den = 2 from by decide +kernel, show (1 / 2 : ℚ).num = 1 from by decide +kernel]; norm_num)
+example := session_chosen_units_one_rpow (F := Rat) (rpow := fun x _ => x) (fun q => some q) unitTable unit_table_ok
+    ⟨some "km".toList, none, none, none, none⟩ (by decide) (by decide)
+    (choiceOK_of_b (by decide +kernel)) 0 (by intro x hx; rw [radicand_mass_none _ _ rfl] at hx; cases hx)
+    siScales auditHist auditReads auditReads_isRead .length _ rfl (validName_of_b (by decide))
+end audit2
+
 end Atomman.C09
